@@ -118,6 +118,11 @@ class Prop:
             r = impl.get('r', '')
             return ok_str(r) or not any(x in r for x in ('UnsupportedVersion', 'PacketTypeMismatch'))
         return True
+    def companions(self, line):
+        """lines a group oracle needs next to [line] (and the state to re-establish) when a replay file is replayed"""
+        return [], None
+    def restore(self, line, state):
+        pass
     def group_oracle(self, recs):
         """cross-case checks; recs = [(line, impl, model)] of the relevant cases; returns [(line, why)]"""
         return []
@@ -1089,7 +1094,8 @@ class Engine:
         if 'case' not in rp:
             print('replay file names no case (proof obligation): ', rp.get('problems'))
             return 1
-        ev = self.evaluate([rp['case']])
+        self.pd.restore(rp['case'], rp.get('companion_state'))
+        ev = self.evaluate([rp['case']] + list(rp.get('companions', [])))
         if ev['fails']:
             print('REPLAY: still failing:', ev['fails'][0]['why'])
             print('VIOLATION property=%s replay=%s' % (self.prop, path))
